@@ -136,6 +136,15 @@ fn config_case(n: usize, tags: &[Tag], order: &[usize], a: &mut Acc) {
             _ => { a.viols.push(Viol { key: key(&format!("tag-output|{}", t.name)), desc: format!("tag `{}`: out/ has {:?}, the composition of its stages gives {:?} (exit {:?}; stdout {}; stderr {}); config: {}", t.name, got, want, o.code, o.stdout.replace('\n', " | "), o.stderr.replace('\n', " | "), cfg), case: case() }); return; }
         }
     }
+    // a second run over the same directory with `-y`, after stale lines were appended to every output file: the files are overwritten
+    // with exactly the same words
+    if !all_files.is_empty() {
+        for (tname, _) in &all_files { if let Some((f, g)) = out_file(&sb, tname) { sb.write(&format!("out/{}/{}", tname, f), &format!("{}\nstale.line\nanother.stale.line", g)); } }
+        a.evals += 1;
+        let o2 = run_cli(&sb.dir, &["seq", ".", "-o", "-y"]); a.procs += 1;
+        let same = all_files.iter().all(|(tname, g)| out_file(&sb, tname).map(|x| x.1) == Some(g.clone()));
+        if same { a.ok += 1; } else { a.viols.push(Viol { key: key("rerun-overwrite"), desc: format!("a second `seq -o -y` over existing (longer) output files did not leave the same words (exit {:?}); config: {}", o2.code, cfg), case: case() }); }
+    }
     // each tag alone in a fresh copy (cold cache) gives the same file
     for (i, t) in tags.iter().enumerate() {
         if reference(tags, i).is_none() { continue; }
@@ -283,7 +292,7 @@ pub fn run() -> i32 {
     if !cli_available() { r.machinery_errors.push(format!("{} not built", CLI)); return r.finish(); }
     let thorough = r.thorough();
     let (mt, me) = if thorough { (3, 2) } else { (2, 1) };
-    r.rule = format!("every config with 1..{} tags: `%` reference of each tag in {{none}} + all tags (so every chain, fork, forward reference, self-loop and longer cycle occurs), word lists on root tags (one or two files), extra word file on pipeline tags or not, {} rule-file entries per tag from 3 rule files of 3 named groups each with filter in {{none, !{{a}}, !{{b,a}}, ~{{c}}, ~{{c,a}}}} spelled with varying case, deromaniser-only alias on some root tags, tags declared in forward and reverse order; the real `asca seq -o -y` is run in a fresh directory and the single file under out/<tag>/ is compared (non-blank lines) with asca::run composed stage by stage by a reference that reads the same files with the harness's own readers; each tag is also run alone in a fresh copy (cold cache) and must write the same file, and with `-i` one numbered file per entry equal to the reference after that entry; `conv tag -r` must export the concatenated rule history, and running it through the library gives the same words when no words were added mid-pipeline; cyclic configs must be rejected without output within 20 s; plus every forest of depth >= 2 over four tags in all 24 declaration orders (all tags in one invocation, so the cache is shared; roots differ in their deromaniser, and `conv tag -r` of every pipeline tag must export its own root's); rule files contain empty lines after a group name and between sub rules. Non-trivial = comparisons that held on valid configs.", mt, me);
+    r.rule = format!("every config with 1..{} tags: `%` reference of each tag in {{none}} + all tags (so every chain, fork, forward reference, self-loop and longer cycle occurs), word lists on root tags (one or two files), extra word file on pipeline tags or not, {} rule-file entries per tag from 3 rule files of 3 named groups each with filter in {{none, !{{a}}, !{{b,a}}, ~{{c}}, ~{{c,a}}}} spelled with varying case, deromaniser-only alias on some root tags, tags declared in forward and reverse order; the real `asca seq -o -y` is run in a fresh directory and the single file under out/<tag>/ is compared (non-blank lines) with asca::run composed stage by stage by a reference that reads the same files with the harness's own readers; a second run with `-y` over the same directory, after stale lines were appended to every output file, must leave the same files; each tag is also run alone in a fresh copy (cold cache) and must write the same file, and with `-i` one numbered file per entry equal to the reference after that entry; `conv tag -r` must export the concatenated rule history, and running it through the library gives the same words when no words were added mid-pipeline; cyclic configs must be rejected without output within 20 s; plus every forest of depth >= 2 over four tags in all 24 declaration orders (all tags in one invocation, so the cache is shared; roots differ in their deromaniser, and `conv tag -r` of every pipeline tag must export its own root's); rule files contain empty lines after a group name and between sub rules. Non-trivial = comparisons that held on valid configs.", mt, me);
     r.assumptions.push("products larger than 6000 configs per tag count are walked with a fixed stride over the mixed-radix index (every choice of every dimension still occurs); the quick box (<= 2 tags, 1 entry) is complete".into());
     let configs = all_configs(mt, me);
     let mut t = Acc::default();
